@@ -48,7 +48,7 @@ pub struct Plan {
 fn gen(seed: u64, tier: Tier) -> Plan {
     let mut rng = Rng::new(seed);
     let n = rng.range(20, if tier == Tier::Quick { 140 } else { 400 });
-    let kinds = ["tx", "tx", "tx-routed", "tx-conflict", "tick", "tick-long", "tick-long", "tick-long", "skew", "observer-restart", "tx-dust", "tx"];
+    let kinds = ["tx", "tx", "tx-routed", "tx-conflict", "tick", "tick-long", "tick-long", "tick-long", "skew", "observer-restart", "tx-dust", "tx", "rival-block", "rival-block"];
     let ops = (0..n).map(|_| Op { k: rng.pick(&kinds).to_string(), a: rng.below(64), b: rng.below(64) }).collect();
     Plan {
         seed,
@@ -68,7 +68,7 @@ impl Scenario for C07 {
     fn meta(&self) -> Meta {
         Meta {
             level: "exploration",
-            rule: "run = real producer node (genesis produced from an issuance file on its simulated disk, then timer-driven bundling with the real mempool, staking transaction, golden tickets from the real MiningThread) + 1-2 observer nodes connected as static peers (announce -> fetch from the producer's disk -> verify -> add) + a scripted wallet that submits transactions through the producer's routing/verification path; genesis period in {3,4,5,8,20,100}, heartbeat in {0.2,1,5} s, issuance scale in {1e5,5e7,9e12}; 20..140/400 operations from {payment with random fee, payment with a routing hop to the producer, conflicting pair, dust payment, timer round of 1-3 s, long round (> 2 heartbeats), producer clock skew, observer crash+restart}; the network runs to quiescence after each. Oracle: no processor panics; every block returned by bundle_block becomes the producer's tip (blocks_created == producer-created blocks on its chain); at every quiescent point each connected observer's tip equals the producer's tip. distinct_nontrivial = distinct produced blocks that carried >= 1 fee-paying transaction and were offered to >= 1 observer.",
+            rule: "run = real producer node (genesis produced from an issuance file on its simulated disk, then timer-driven bundling with the real mempool, staking transaction, golden tickets from the real MiningThread) + 1-2 observer nodes connected as static peers (announce -> fetch from the producer's disk -> verify -> add) + a scripted wallet that submits transactions through the producer's routing/verification path; genesis period in {3,4,5,8,20,100}, heartbeat in {0.2,1,5} s, issuance scale in {1e5,5e7,9e12}; 20..140/400 operations from {payment with random fee, payment with a routing hop to the producer, conflicting pair, dust payment, timer round of 1-3 s, long round (> 2 heartbeats), producer clock skew, observer crash+restart, a rival producer's valid block built on the producer's tip and delivered to it as a fetched peer block (so that the chain advances without draining the producer's pool)}; the network runs to quiescence after each (block fetches complete in request order). Oracle: no processor panics; every block returned by bundle_block becomes the producer's tip (blocks_created == producer-created blocks on its chain); at every quiescent point each connected observer's tip equals the producer's tip. distinct_nontrivial = distinct produced blocks that carried >= 1 fee-paying transaction and were offered to >= 1 observer.",
             real: &["ConsensusThread (genesis, bundle_block, add_blocks_from_mempool)", "Mempool::bundle_block/can_bundle_block", "Block::create/generate_consensus_values/validate", "MiningThread", "RoutingThread/VerificationThread on all nodes", "handshake, BlockchainSyncState, Storage"],
             stubs: &["SimNet", "fetch server over the producer's SimDisk", "SimClock with skew", "scripted wallet peer"],
             assumptions: &["event-granularity scheduling", "staking off"],
@@ -143,6 +143,15 @@ impl Scenario for C07 {
                 sim.ext_send(wc, Message::HandshakeResponse(resp).serialize());
             }
         }
+        // a rival producer: an independent replica of the producer's chain on which the harness
+        // builds (real Block::create) a competing-but-valid next block now and then; it reaches the
+        // producer as a fetched peer block, so that a block which does NOT drain the producer's pool is
+        // adopted while transactions are pending
+        let rival = derive_key(plan.seed, 30);
+        let rival_keys: Vec<Key> = vec![rival.clone()];
+        let mut rep = Node::new(&cfg, &rival);
+        let mut rival_blocks: Vec<[u8; 32]> = vec![];
+        let mut rival_adopted: Vec<[u8; 32]> = vec![];
         let mut trace = Digest::new();
         let mut ledger = RefLedger::default();
         let mut seen_blocks: Vec<[u8; 32]> = vec![];
@@ -155,9 +164,15 @@ impl Scenario for C07 {
             let mut k = 0;
             loop {
                 sim.resolve_connects(|n, _| if n != 0 { Some(0) } else { None });
-                if !sim.step() {
+                // block fetches complete in the order they were requested (parents first): a child that
+                // arrives before its parent is the orphan-delivery defect owned by C03/C05/C15, not this
+                // property's subject
+                let acts: Vec<Action> = sim.enabled().into_iter().filter(|a| !matches!(a, Action::FetchDone(i) | Action::FetchFail(i) if *i > 0)).collect();
+                if acts.is_empty() {
                     return true;
                 }
+                let a = acts[sim.rng.usize_below(acts.len())].clone();
+                sim.apply(a);
                 k += 1;
                 if k > 50_000 {
                     return false;
@@ -205,6 +220,7 @@ impl Scenario for C07 {
                         let rec = rec_from_block(b, true, "produced");
                         ledger.apply(&rec);
                         seen_blocks.push(h);
+                        let _ = rep.add_block_bytes(&b.serialize_for_net(saito_core::core::consensus::block::BlockType::Full));
                         if b.id > 1 && rec.txs.iter().any(|t| t.ttype == TransactionType::Normal && t.inputs.iter().map(|s| s.amount as u128).sum::<u128>() > t.outputs.iter().map(|s| s.amount as u128).sum::<u128>()) {
                             offered_fee_blocks.push(crate::rng::fnv_bytes(&h));
                         }
@@ -249,6 +265,31 @@ impl Scenario for C07 {
                             r.fault("conflicting_transactions", 1);
                         }
                         pending_spent.push(inp.key());
+                    }
+                }
+                "rival-block" => {
+                    let (tip_id2, tip_hash, tip_ts) = {
+                        let bc = block_on(sim.nodes[p].blockchain_lock.read());
+                        let h = bc.get_latest_block_hash();
+                        (bc.get_latest_block_id(), h, bc.get_block(&h).map(|b| b.timestamp).unwrap_or(0))
+                    };
+                    let now = sim.now();
+                    // old enough that no routing work is required of the rival; replica in step with the producer
+                    if tip_id2 >= 1 && rep.tip().1 == tip_hash && now >= tip_ts + 2 * plan.heartbeat + 1 {
+                        tagc += 1;
+                        let filler = make_tx(&users[2], &[], &[(users[2].pk, 0)], now + tagc, &tagc.to_le_bytes());
+                        let want_gt = !rep.bc.is_golden_ticket_count_valid(tip_hash, false, false, false);
+                        let spec = BlockSpec { parent: tip_hash, ts: now, txs: vec![filler], gt: want_gt, creator: 0 };
+                        if let Ok(Ok(b)) = crate::util::guarded(|| build_block(&rep, &rival_keys, spec)) {
+                            rival_blocks.push(b.hash);
+                            sim.nodes[p].net_in.push_back(saito_core::core::io::network_event::NetworkEvent::BlockFetched {
+                                block_hash: b.hash,
+                                block_id: b.id,
+                                peer_index: _widx,
+                                buffer: b.serialize_for_net(saito_core::core::consensus::block::BlockType::Full),
+                            });
+                            r.fault("rival_block_delivered", 1);
+                        }
                     }
                 }
                 "tick" => tick_all(&mut sim, 1000 + (op.a % 3) * 700),
@@ -298,9 +339,21 @@ impl Scenario for C07 {
                         break;
                     }
                 }
-                // blocks purged from memory still count: ids are consecutive from genesis for a sole producer
-                (cnt.max(bc.get_latest_block_id().saturating_sub(1)), (bc.get_latest_block_id(), bc.get_latest_block_hash()))
+                // rival blocks that made it onto the chain (they are built on the producer's tip one at a
+                // time, so they are never reorganised away again)
+                for h in &rival_blocks {
+                    if !rival_adopted.contains(h) && bc.get_block(h).map_or(false, |b| b.in_longest_chain) {
+                        rival_adopted.push(*h);
+                    }
+                }
+                // blocks purged from memory still count: ids are consecutive from genesis and every block
+                // on the chain is the producer's own or an adopted rival block
+                let by_height = bc.get_latest_block_id().saturating_sub(1).saturating_sub(rival_adopted.len() as u64);
+                (cnt.max(by_height), (bc.get_latest_block_id(), bc.get_latest_block_hash()))
             };
+            if std::env::var("VERIF_DEBUG").is_ok() {
+                eprintln!("op {} {} created {} own_on_chain {} tip {} rival {}/{} now {}", oi, op.k, created, own_on_chain, ptip.0, rival_adopted.len(), rival_blocks.len(), sim.now());
+            }
             if created > own_on_chain {
                 let mult = {
                     let bc = block_on(sim.nodes[p].blockchain_lock.read());
@@ -348,6 +401,7 @@ impl Scenario for C07 {
         }
         r.probe_n("blocks_produced", sim.nodes[p].consensus.stats.blocks_created.total);
         r.probe_n("golden_tickets_mined", sim.nodes[p].mining.mined_golden_tickets);
+        r.probe_n("rival_blocks_adopted", rival_adopted.len() as u64);
         for h in offered_fee_blocks {
             r.nontrivial.push(h);
         }
